@@ -94,6 +94,32 @@ pub fn ecc_cols_and_selectors(cs: &ConstraintSystem<F>, names: &[&str]) -> (Vec<
     (cols.into_iter().collect(), sels.into_iter().collect())
 }
 
+fn adv_queries(e: &Expression<F>, out: &mut BTreeSet<(usize, i32)>) {
+    match e {
+        Expression::Advice(q) => {
+            out.insert((q.column_index(), q.rotation().0));
+        }
+        Expression::Negated(a) | Expression::Scaled(a, _) => adv_queries(a, out),
+        Expression::Sum(a, b) | Expression::Product(a, b) => {
+            adv_queries(a, out);
+            adv_queries(b, out);
+        }
+        _ => {}
+    }
+}
+
+/// The condition column of the foreign EC gates: the advice column with the highest index
+/// among those the named (tangent) gate queries at rotation +1 (layout `| λ limbs | u v… cond |`).
+pub fn cond_col(cs: &ConstraintSystem<F>, gate: &str) -> usize {
+    let mut q = BTreeSet::new();
+    for g in cs.gates().iter().filter(|g| g.name() == gate) {
+        for p in g.polynomials() {
+            adv_queries(p, &mut q);
+        }
+    }
+    q.iter().filter(|(_, r)| *r == 1).map(|(c, _)| *c).max().expect("tangent gate queries the next row")
+}
+
 pub const JUB_GATES: [&str; 3] = ["double", "conditional add", "witness point"];
 pub const FOREIGN_GATES: [&str; 4] = [
     "Foreign-field EC assert_is_on_curve",
